@@ -117,6 +117,11 @@ PROFILES.append(dict(name="layout-shapes", opts=["lc=2", "lc=3", "lc=4", "lc=3,b
                      prologue=layered, length=(10, 40)))
 
 
+# readers that stay open while the data they read is rotated, flushed (into tables that also hold newer entries) and compacted
+PROFILES.append(dict(name="open-readers", opts=OPTS, weights=dict(PHYS, begin=16, write=26, get=30, scan=10, commit=12, drop=3, reopen=0),
+                     max_tx=6, keys=["61", "62", "6162", "63", "6100"], length=(60, 150)))
+
+
 def nontrivial(lines, exp):
     ops = [l.split()[1] for l in lines]
     return ("compact" in ops or "flush" in ops) and any(o in ops for o in ("del", "sdel")) and ops.count("commit") >= 2
